@@ -3,6 +3,7 @@ package main
 import (
 	"fmt"
 	"go/types"
+	"sort"
 	"strings"
 
 	"golang.org/x/tools/go/ssa"
@@ -742,4 +743,98 @@ func runDiagStrings(p *Program, r *RuleResult) {
 		}
 	}
 	r.count("plain printed forms used in a decision", nPlain)
+}
+
+// R-SIBLING-CHOICE (C16, C10, C08): the two choice constructors (internal +{…} and external
+// &{…}) are treated alike by everything that is not about polarity or printing.
+func init() {
+	register(&Rule{Name: "R-SIBLING-CHOICE", Min: 5,
+		Doc: "sibling cross-check: for the two choice type constructors (same fields: a list of labelled options and a mode), every method of the mode-inference / mode-checking / well-formedness family has the same go/ssa body up to the receiver's type name and the text of string constants; a difference means one of the two was changed without the other",
+		Run: runSiblingChoice})
+}
+
+func normSSA(fn *ssa.Function, from, to string) []string {
+	var out []string
+	for _, b := range fn.Blocks {
+		out = append(out, fmt.Sprintf("block %d:", b.Index))
+		for _, in := range b.Instrs {
+			if _, ok := in.(*ssa.DebugRef); ok {
+				continue
+			}
+			s := in.String()
+			if v, ok := in.(ssa.Value); ok {
+				s = v.Name() + " = " + s
+			}
+			s = strings.ReplaceAll(s, from, to)
+			// string constants: keep only that there is one
+			for {
+				i := strings.Index(s, "\"")
+				if i < 0 {
+					break
+				}
+				j := strings.Index(s[i+1:], "\"")
+				if j < 0 {
+					break
+				}
+				s = s[:i] + "<str>" + s[i+j+2:]
+			}
+			out = append(out, s)
+		}
+	}
+	return out
+}
+
+func runSiblingChoice(p *Program, r *RuleResult) {
+	// the two constructors: SessionType implementers with a slice-of-options field
+	var sib []*types.Named
+	for _, T := range p.Implementers(p.Named(typesPkg, "SessionType")) {
+		st, ok := T.Underlying().(*types.Struct)
+		if !ok {
+			continue
+		}
+		for i := 0; i < st.NumFields(); i++ {
+			if sl, ok := st.Field(i).Type().Underlying().(*types.Slice); ok {
+				if n := namedOf(sl.Elem()); n != nil && n.Obj().Pkg() != nil && n.Obj().Pkg().Path() == typesPkg {
+					sib = append(sib, T)
+				}
+			}
+		}
+	}
+	if len(sib) != 2 {
+		r.add("types", "choice-constructors", Undecided, "", fmt.Sprintf("expected two choice constructors, found %d", len(sib)))
+		return
+	}
+	sort.Slice(sib, func(i, j int) bool { return sib[i].Obj().Name() < sib[j].Obj().Name() })
+	A, B := sib[0], sib[1]
+	exempt := map[string]string{
+		"Polarity": "the two differ exactly in polarity", "String": "printing (R-PRINT-GRAMMAR)", "StringWithModality": "printing", "StringWithOuterModality": "printing",
+	}
+	ms := types.NewMethodSet(types.NewPointer(A))
+	for i := 0; i < ms.Len(); i++ {
+		name := ms.At(i).Obj().Name()
+		if _, ok := exempt[name]; ok {
+			continue
+		}
+		fa, fb := p.MethodOpt(A, name), p.MethodOpt(B, name)
+		if fa == nil || fb == nil || fa.Blocks == nil || fb.Blocks == nil {
+			continue
+		}
+		na := normSSA(fa, A.Obj().Name(), "Choice")
+		nb := normSSA(fb, B.Obj().Name(), "Choice")
+		diff := ""
+		if len(na) != len(nb) {
+			diff = fmt.Sprintf("%d vs %d instructions", len(na), len(nb))
+		}
+		for k := 0; k < len(na) && k < len(nb) && diff == ""; k++ {
+			if na[k] != nb[k] {
+				diff = fmt.Sprintf("first difference: `%s` vs `%s`", na[k], nb[k])
+			}
+		}
+		if diff == "" {
+			r.add("types."+A.Obj().Name()+"/"+B.Obj().Name(), "sibling:"+name, Holds, p.pos(fa.Pos()), fmt.Sprintf("%d instructions identical up to the receiver type", len(na)))
+		} else {
+			r.add("types."+A.Obj().Name()+"/"+B.Obj().Name(), "sibling:"+name, Violated, p.pos(fb.Pos()),
+				fmt.Sprintf("%s.%s and %s.%s are no longer the same function (%s): internal and external choice would be inferred/checked differently", A.Obj().Name(), name, B.Obj().Name(), name, diff))
+		}
+	}
 }
